@@ -18,6 +18,7 @@ from sa.report import Check  # noqa: E402
 def run_property(prop: str, tier: str, root: str, overlay=None, quiet=False, seed=0):
     repo = Repo(root, overlay)
     chk = Check(prop, tier, repo, seed=seed, quiet=quiet)
+    chk.write_evidence = os.path.realpath(root) == "/repo" and overlay is None
     mod = importlib.import_module(f"rules.{prop}")
     mod.run(chk)
     return chk
